@@ -101,6 +101,21 @@ Theorem C08_stack_relocated_x86_frame : forall lo hi s,
 Proof. exact unwind_frame_x_stack_shift. Qed.
 Print Assumptions C08_stack_relocated_x86_frame.
 
+Theorem C08_stack_relocated_a64_frame : forall lo hi s,
+  2 * DIST <= lo -> lo <= hi -> hi + s + 2 * DIST < W64 ->
+  forall k, (forall v, v <= hi + s -> strip k v = v) ->
+  forall (u : aunwinder) (c : acache) a rg rg' m,
+  mem_ok_a lo hi s k m -> arel lo hi s k rg rg' -> avok lo hi s k rg -> aspok lo s rg ->
+  (forall x r c1, lookup_address a = Ok x -> cache_lookup arule c x (gen _ u) = (Hit arule r, c1) -> arule_wf r = true) ->
+  (forall x md rel, lookup_address a = Ok x -> find_module amdata (mods _ u) x = Ok (Some (md, rel)) ->
+     cb_rel_a lo hi s k (cb_a64 md (negb (is_ra a)) rel rg m) (cb_a64 md (negb (is_ra a)) rel rg' (shm lo hi s m))) ->
+  let o := unwind_frame_a u c a rg m in
+  let o' := unwind_frame_a u c a rg' (shm lo hi s m) in
+  aout_rel lo hi s k (o_res _ _ o, o_regs _ _ o) (o_res _ _ o', o_regs _ _ o') /\
+  o_cache _ _ o = o_cache _ _ o' /\ o_eff _ _ o = o_eff _ _ o'.
+Proof. exact unwind_frame_a_stack_shift. Qed.
+Print Assumptions C08_stack_relocated_a64_frame.
+
 (* the callback condition holds for modules without data, for every Mach-O entry that does not defer to DWARF,
    and a DWARF row that compresses gives the same well-formed rule for both states *)
 Check cb_rel_none.
